@@ -1,6 +1,7 @@
 package main
 
 import (
+	"encoding/json"
 	"flag"
 	"fmt"
 	"os"
@@ -37,8 +38,18 @@ func main() {
 	list := flag.Bool("list", false, "list registered properties and rules")
 	dumpKeys := flag.Bool("keys", false, "print all obligation keys with status")
 	noEvidence := flag.Bool("no-evidence", false, "do not write evidence (used for variant/self-validation runs)")
+	describe := flag.Bool("describe", false, "print the registered properties with their decided / not decided clauses as JSON")
 	flag.Parse()
 
+	if *describe {
+		out := map[string]map[string]string{}
+		for id, pi := range props {
+			out[id] = map[string]string{"title": pi.Title, "explanation": pi.Explanation, "rules": fmt.Sprint(len(pi.Rules))}
+		}
+		b, _ := json.MarshalIndent(out, "", " ")
+		fmt.Println(string(b))
+		return
+	}
 	if *list {
 		ids := sortedKeys(props)
 		for _, id := range ids {
